@@ -4,7 +4,7 @@ from vlib import core
 from props import poolcommon as pc
 
 MANIFEST = dict(
-    text='Theorems: one supervision pass acts on the job table exactly as the per-job function tick_job (proved); deadline (first pass after the grace period resolves the job with the recorded status and its own id), never earlier, no other job touched, detection records (now, exit status), result handled before the pass wins, marker written once in every continuation, terminate_job yields Terminated. Known findings for map/imap owner bookkeeping are listed in known_findings.json. The result handler\'s drain-loop join (_join_exited_workers(shutdown=True)) treats every job exactly as a pass does. Refuted with witnesses (known findings): loss not delivered to an ordered imap consumer, spurious loss for finished parts of a map job, owner gone but never marked when its acknowledgement arrives after the reaping pass.',
+    text='Theorems: one supervision pass acts on the job table exactly as the per-job function tick_job (proved); deadline (first pass after the grace period resolves the job with the recorded status and its own id), never earlier, no other job touched, detection records (now, exit status), result handled before the pass wins, marker written once in every continuation, terminate_job yields Terminated. Known findings for map/imap owner bookkeeping are listed in known_findings.json. The result handler\'s drain-loop join (_join_exited_workers(shutdown=True)) treats every job exactly as a pass does. CLOSED SYSTEM WITH CRASHES (Model/PoolCrash.v; client, queue, pipes, live workers, crash budget, clock, the open pool model as parent; any number of jobs, workers, kills, any statuses and timeouts, pools without restart limit; every schedule in which a pass runs only after the messages of the dead worker were drained): the job of a live worker is never marked or failed; a marker names the status of its own exited and reaped worker; a resolved job has its own result or the loss of its own worker; unresolved jobs are in exactly one place; the pool stays at size; a pass detects, waits while the grace period runs and fails the job at the first pass after it, and nothing else ever reports a loss; useful steps decrease a measure, progress while work is left, every maximal useful schedule ends with all n jobs resolved, pool at size, slots back, within 6n + kills*(grace+3) steps, and from every reachable state such an end is reachable without further kills; slot accounting. Refuted in the closed system: one racy pass (the ACK of the dead worker still in the pipe) reaches a state from which no schedule resolves the job. Refuted with witnesses (known findings): loss not delivered to an ordered imap consumer, spurious loss for finished parts of a map job, owner gone but never marked when its acknowledgement arrives after the reaping pass.',
     note='Trusted: Coq kernel; hand-written model Model/Pool.v validated on every run against the real billiard.pool parent-side code (harness/pool_driver.py: fake processes, fake clock, recorded signals); event-level atomicity; worker side and OS not modelled here (C03 covers the worker loop). Partial: "for every kind of job handle" is refuted for ordered imap (known finding D4) and for ACKs handled after reaping (D11); supervision period P is a parameter (passes are events).',
     technique='Coq proof (invariants by induction over all event histories of an executable pool model) + differential correspondence against the real parent-side code',
     ref='5.4',
@@ -14,11 +14,14 @@ FOCUS = {'exit': 9, 'tick': 14, 'advance': 10, 'ack': 12, 'terminate_job': 2}
 
 
 def run(res):
-    res.proof_step('Props/C04.v', extra_targets=['Model/Pool.vo'], kernels_needed=['G_pool_shape', 'G_pool_pins'])
+    res.proof_step('Props/C04.v', extra_targets=['Model/Pool.vo', 'Model/PoolCrash.vo'], kernels_needed=['G_pool_shape', 'G_pool_pins'])
     n = 150 if res.tier == 'quick' else 6000
     if res.broken:
         n = max(n, 1500)      # failing-input search on the implementation
     pc.pool_check(res, 'C04', n, focus=FOCUS)
+    # the closed system with crashes (Model/PoolCrash.v): random schedules of client, pipes, workers, kills,
+    # passes and clock; the real parent-side code against the model whose liveness and exactness are proved
+    pc.crash_closed_check(res, 'C04', 60 if res.tier == 'quick' else 1200)
     pc.real_scenarios(res, 'C04', [dict(kind='worker_lost', sig=9), dict(kind='worker_lost', sig=11)] if res.tier == 'quick' else [dict(kind='worker_lost', sig=s) for s in (9, 11, 6, 15, 4, 8)])
     res.assumptions += pc_assumptions()
 
